@@ -587,7 +587,9 @@ def check_c17(run: Run, prog: Program) -> None:
         "from vertex coordinates (center, centroid) is an affine combination (total weight 1) - otherwise it is not equivariant under "
         "translations. (E19.poly) The formulas of the planar polygon: PolygonTensor.area and Polygon.centroid, interpreted for symbolic vertices (3, 4 and 5 of them), are "
         "1/2 |shoelace sum| and the area centroid as polynomial identities - the invariance under rotation and reversal of the vertex list follows from the closed forms. "
-        "NOT decided: the projection of polygons embedded in 3-space onto their plane, Simplex.volume, RegularPolygon, Cuboid; the roll/flip logic of __eq__; constructive "
+        "(E19.simplex) Simplex.volume is |det| / (n-1)! when there are as many vertices as homogeneous coordinates, and otherwise the Cayley-Menger expression whose radicand "
+        "is the squared length (2 vertices) or the squared area of the triangle (3 vertices in 3-space). NOT decided: the projection of polygons embedded in 3-space onto "
+        "their plane, RegularPolygon, Cuboid; the roll/flip logic of __eq__; constructive "
         "results (midpoint, circumcenter)."
     )
     poly = prog.cls("PolytopeTensor")
@@ -605,6 +607,8 @@ def check_c17(run: Run, prog: Program) -> None:
 
     n3 = quadforms.rule_polygon_measures(run, prog)
     run.floor("polygon measure formulas read (found, decided or not)", n3, 4)
+    n4 = quadforms.rule_simplex_volume(run, prog)
+    run.floor("simplex volume cases read (found, decided or not)", n4, 4)
 
 
 # ================================================================================================ C15
